@@ -164,6 +164,12 @@ def triangulate(polygon):
     i = 0
     while len(polygon) > 2:
         if i >= len(polygon):
+            # No ear is left. That is fine if what remains has no area (vertices
+            # left on one line after all the real ears have been clipped).
+            if len(polygon[0]) == 3:
+                rest = sum(np.cross(p1, p2) for p1, p2 in looped_pairs(polygon))
+                if np.dot(rest, rest) <= 1E-12 * np.dot(normal, normal):
+                    return
             raise ValueError("Triangulation failed")
         (a, b, c) = looped_slice(polygon, i, 3)
         triangle = (a, b, c)
